@@ -463,6 +463,10 @@ func VerifyBlob(ctx context.Context, blobVerifier BlobVerifier, blobReader io.Re
 		return ocispec.Descriptor{}, nil, err
 	}
 
+	if vo.EnvelopeContent == nil {
+		// signature verification was skipped, there is no verified payload
+		return ocispec.Descriptor{}, vo, nil
+	}
 	var desc ocispec.Descriptor
 	if err = json.Unmarshal(vo.EnvelopeContent.Payload.Content, &desc); err != nil {
 		return ocispec.Descriptor{}, nil, err
